@@ -51,7 +51,14 @@ TOK = re.compile(r'\s+|[A-Za-z_][A-Za-z_0-9]*|\d+(?:\.\d+)?|"(?:\\.|[^"\\])*"|\S
 
 def screen(text):
     """containment: at most two `..`, at most 4 kB"""
-    if text.count("..") > 2:
+    # the `...` that closes an open list type (`[int...]`) is not part of a path
+    mark = "\ue000\ue001\ue002"
+    if mark not in text:
+        masked = re.sub(r"(?<!\.)\.\.\.(?=\s*\])", mark, text)
+        if masked.count("..") > 2:
+            masked = masked.replace("..", ".")
+        text = masked.replace(mark, "...")
+    elif text.count("..") > 2:
         text = text.replace("..", ".")
     b = text.encode("utf-8", "ignore")[:4096]
     return b.decode("utf-8", "ignore")
@@ -366,8 +373,107 @@ def neighbourhood_inputs(tier, seed):
     return out
 
 
+# ---- text that is not ASCII in front of, inside and behind everything the compiler scans by hand (comment markers, string
+# escapes, the bracket-depth guard, the line / column of a diagnostic): a character position is not a byte position as soon as
+# one character needs more than one byte, and the difference grows with every such character
+MB_PREFIX = ["# caf\u00e9\n", "# \u4e8c\u5206\u63a2\u7d22\u306e\u30c7\u30e2\n", "s0 = \"\u65e5\u672c\u8a9e\U0001F600\"\n", "### \u00e9\u00e8 ###\n",
+             "x0 = \"\u00e9\" # \U0001F600\n", "###\n\t\u65e5\u672c\n###\n", "# \u0301\u200b\u2028 \ufeff\n"]
+MB_FEATURE = [("closed-block-comment", "###\n\tsearch(xs): a comment\n###\nv1 = 1\nprint v1\n"),
+              ("block-comment-in-statement", "v1 = 1 ### c ### + 2\nprint v1\n"),
+              ("unclosed-block-comment", "v1 = 1\n### never closed\nprint [[v1]]\n"),
+              ("two-block-comments", "### a ###\nv1 = 1\n### b ###\nprint v1\n"),
+              ("hash-runs", "## two\n#### four\n##### five ###\nv1 = 1\n###### six\n"),
+              ("string-escapes", "v1 = \"a\\\"b\\\\\" + \"\\n#\" # c\nprint v1\n"),
+              ("string-with-hashes", "v1 = \"### not a comment\"\nprint v1 ### c ###\n"),
+              ("type-error", "v1: int = \"s\"\n"), ("syntax-error", "v1 = = 1\n"), ("unknown-name", "print nowhere\n"),
+              ("assert", "assert 1 == 2\n"), ("get-nil", "o1: int? = nil\nprint get o1\n"),
+              ("deep-brackets", "const d1 = " + "[" * 300 + "1" + "]" * 300 + "\n"),
+              ("unclosed-brackets", "const d1 = " + "[" * 300 + "\n"),
+              ("class", "class K1 {\n\tn: int\n\tconstructor(self) {\n\t\tself.n = 1\n\t}\n}\nprint K1().n\n"),
+              ("same-line-diagnostic", "v1 = \"\u65e5\u672c\" + 1 - nowhere # \u00e9\n"),
+              ("non-ascii-identifier", "caf\u00e9 = 1\nprint caf\u00e9\n"), ("non-ascii-operator", "v1 = 1 \u00d7 2\n")]
+
+
+def multibyte_inputs():
+    out = []
+    for pi, pre in enumerate(MB_PREFIX):
+        for k in (1, 2, 3, 5):
+            for name, feat in MB_FEATURE:
+                out.append(("multibyte:prefix%d-x%d:%s" % (pi, k, name), pre * k + feat))
+    # the same text behind and in the middle of the feature
+    for pi, pre in enumerate(MB_PREFIX):
+        for name, feat in MB_FEATURE:
+            out.append(("multibyte:suffix%d:%s" % (pi, name), feat + pre))
+            lines = feat.split("\n")
+            out.append(("multibyte:infix%d:%s" % (pi, name), "\n".join(lines[:1]) + "\n" + pre + "\n".join(lines[1:])))
+    return out
+
+
+# ---- deep type pairs: two types of the same deep shape that are equal, or differ only at the core, met at every place where the
+# compiler compares an expected with a supplied type. The near-miss pairs above stay at depth <= 3; a comparison that visits a
+# level more than once is invisible there and exponential here (30 levels of `[T...]` are 250 bytes of input)
+DEEP_WRAP = {"open-list": ("[", "...]"), "fixed-list": ("[", ", int]"), "map-value": ("map[str, ", "]"), "fn-result": ("fn() -> ", ""),
+             "fn-param": ("fn(", ")"), "list-of-optional": ("[", "?...]"), "map-of-list": ("map[int, [", "...]]"),
+             "fixed-list-of-optional": ("[", "?, int]"), "map-of-optional": ("map[str, ", "?]"), "optional-fn-result": ("fn() -> ", "?"),
+             "list-of-fn": ("[fn() -> ", "...]"), "fn-of-list-param": ("fn([", "...])"), "optional-fn-param": ("fn(", "?)"),
+             "fixed-pair": ("[int, ", "]"), "list-of-map": ("[map[str, ", "]...]"),
+             "fn-two-params": ("fn(int, ", ")"), "fn-param-and-result": ("fn(int) -> ", "")}
+DEEP_USE = {"typed-decl": "a: %(A)s = %(V)s\nx: %(B)s = a\n", "argument": "a: %(A)s = %(V)s\nf = fn(q: %(B)s) {}\nf(a)\n",
+            "result": "a: %(A)s = %(V)s\nf = fn() -> %(B)s {\n\treturn a\n}\n", "reassign": "a: %(A)s = %(V)s\nb: %(B)s = %(V)s\nb = a\n",
+            "equality": "a: %(A)s = %(V)s\nb: %(B)s = %(V)s\nprint a == b\n", "push": "a: %(A)s = %(V)s\nl: [%(B)s...] = []\nl.push(a)\n",
+            "field": "class Kd {\n\tv: %(B)s\n\tconstructor(self, v: %(A)s) {\n\t\tself.v = v\n\t}\n}\n", "or": "a: %(A)s? = nil\nb: %(B)s = %(V)s\nx = (a) or b\n"}
+
+
+def deep_type(kind, depth, core):
+    o, c = DEEP_WRAP[kind]
+    if kind == "mixed":
+        raise ValueError
+    return o * depth + core + c * depth
+
+
+def deep_typepair_inputs():
+    out = []
+    kinds = sorted(DEEP_WRAP)
+    for depth in (8, 16, 24, 32, 48, 100):
+        for kind in kinds:
+            for cores in (("int", "str"), ("int", "int"), ("int", "int?"), ("Kx", "Ky")):
+                for use in sorted(DEEP_USE):
+                    a, b = deep_type(kind, depth, cores[0]), deep_type(kind, depth, cores[1])
+                    v = "[]" if kind in ("open-list", "list-of-optional") else None
+                    if v is None:
+                        # no literal of this type can be written without the type: take the value from a parameter
+                        body = DEEP_USE[use] % {"A": a, "B": b, "V": "p0"}
+                        lines = body.split("\n")
+                        text = "w0 = fn(p0: %s) {\n%s}\n" % (a, "".join("\t" + l + "\n" for l in lines if l)) if use != "field" else body
+                    else:
+                        text = DEEP_USE[use] % {"A": a, "B": b, "V": v}
+                    pre = "class Kx {\n}\nclass Ky {\n}\n" if cores[0] == "Kx" else ""
+                    if len(pre + text) <= 4000:
+                        out.append(("deep-typepair:%s:%d:%s-vs-%s:%s" % (kind, depth, cores[0], cores[1], use), pre + text))
+    # alternating wrappers
+    orders = [("open-list", "map-value", "fixed-list", "fn-result"), tuple(kinds), tuple(reversed(kinds)), tuple(kinds[::2] + kinds[1::2]),
+              ("list-of-optional", "fn-param"), ("fn-of-list-param", "list-of-optional", "map-of-optional")]
+    for oi, order in enumerate(orders):
+        for depth in (10, 20, 30, 60):
+            for cores in (("int", "str"), ("int", "int"), ("int", "int?")):
+                def alt(core):
+                    t = core
+                    for i in range(depth):
+                        k = order[i % len(order)]
+                        t = DEEP_WRAP[k][0] + t + DEEP_WRAP[k][1]
+                    return t
+                for use in ("argument", "result", "field", "equality"):
+                    body = DEEP_USE[use] % {"A": alt(cores[0]), "B": alt(cores[1]), "V": "p0"}
+                    text = body if use == "field" else "w0 = fn(p0: %s) {\n%s}\n" % (alt(cores[0]), "".join("\t" + l + "\n" for l in body.split("\n") if l))
+                    if len(text) <= 4000:
+                        out.append(("deep-typepair:alternating%d:%d:%s-vs-%s:%s" % (oi, depth, cores[0], cores[1], use), text))
+    return out
+
+
 def enumerated(tier, seed):
     cases = [{"family": "boundary:" + n, "text": t} for n, t in boundary_inputs()]
+    cases += [{"family": n, "text": t} for n, t in deep_typepair_inputs()]
+    cases += [{"family": n, "text": t} for n, t in multibyte_inputs()]
     cases += [{"family": n, "text": t} for n, t in neighbourhood_inputs(tier, seed)]
     cases += [{"family": n, "text": t} for n, t in import_inputs()]
     cases += [{"family": n, "text": t} for n, t in typepair_matrix()]
@@ -385,8 +491,11 @@ def mutate(g, text):
     rules()
     for _ in range(g.int(1, 4)):
         i = g.int(0, len(toks) - 1)
-        op = g.choice(["delete", "insert", "dup", "swap", "replace", "replace"])
-        if op == "delete":
+        op = g.choice(["delete", "insert", "dup", "swap", "replace", "replace"] + (["multibyte"] if g.chance(30) else []))
+        if op == "multibyte":
+            # text that is not ASCII (a comment line, a string, a comment marker) at a token boundary
+            toks.insert(i, g.choice(MB_PREFIX + ["\"\u00e9\"", " # \u65e5\n", "\u00e9", "### \U0001F600 ###", "###"]))
+        elif op == "delete":
             del toks[i]
         elif op == "insert":
             toks.insert(i, g.choice(_terms))
